@@ -99,7 +99,7 @@ fn split_fields(reply: &str, n: usize) -> Option<Vec<String>> {
 impl Prop for C17 {
     fn cases(&self, tier: Tier) -> u64 {
         match tier {
-            Tier::Quick => 400_000,
+            Tier::Quick => 1_200_000,
             Tier::Thorough => 4_000_000,
         }
     }
